@@ -7,6 +7,7 @@ import GridVerse.Model.Reset
 import GridVerse.Model.Env
 import GridVerse.Model.Repr
 import GridVerse.Model.Rays
+import GridVerse.Model.Config
 namespace GV.Codec
 
 abbrev P := StateT (List String) Option
@@ -333,5 +334,63 @@ def pObsSpace : P ObsSpace := do
   let h ← pNat; let w ← pNat
   let kinds ← pCounted pKind; let colors ← pCounted pColor
   pure ⟨h, w, kinds, colors⟩
+
+/-- configuration data in prefix notation: n | b0 | b1 | i<int> | f<m>e<e> | s<text> | l n … | m n key val … -/
+def pYaml : Nat → P Yaml
+  | 0 => failure
+  | fuel + 1 => do
+    let t ← tok
+    match t.toList with
+    | ['n'] => pure .null
+    | ['b', '0'] => pure (.bool false)
+    | ['b', '1'] => pure (.bool true)
+    | 'i' :: rest =>
+      match (String.ofList rest).toInt? with
+      | some i => pure (.int i)
+      | none => failure
+    | 'f' :: rest =>
+      match (String.ofList rest).splitOn "e" with
+      | [m, e] =>
+        match m.toInt?, e.toNat? with
+        | some m, some e => pure (.float m e)
+        | _, _ => failure
+      | _ => failure
+    | 's' :: rest => pure (.str (String.ofList rest))
+    | ['l'] => do
+      let n ← pNat
+      let items ← pList (pYaml fuel) n
+      pure (.list items)
+    | ['m'] => do
+      let n ← pNat
+      let items ← pList (do
+        let k ← tok
+        let v ← pYaml fuel
+        pure ((k.drop 1).toString, v)) n
+      pure (.map items)
+    | _ => failure
+
+def pSig : P Sig := do
+  let name ← tok
+  let req ← pCounted tok
+  let opt ← pCounted tok
+  pure ⟨name, req, opt⟩
+
+def pRegs : P Regs := do
+  let a ← pCounted pSig; let b ← pCounted pSig; let c ← pCounted pSig
+  let d ← pCounted pSig; let e ← pCounted pSig; let f ← pCounted pSig
+  let objs ← pCounted tok; let cols ← pCounted tok; let acts ← pCounted tok
+  pure ⟨a, b, c, d, e, f, objs, cols, acts⟩
+
+partial def showComp : Comp → String
+  | .mk name kws subs =>
+    name ++ "(" ++ ",".intercalate kws ++ ")" ++
+      (if subs.isEmpty then "" else "[" ++ ";".intercalate (subs.map showComp) ++ "]")
+
+def showDesc (d : EnvDesc) : String :=
+  "S:" ++ ",".intercalate d.stateObjects ++ "/" ++ ",".intercalate d.stateColors ++
+  " A:" ++ ",".intercalate d.actions ++
+  " O:" ++ ",".intercalate d.obsObjects ++ "/" ++ ",".intercalate d.obsColors ++
+  " R:" ++ showComp d.reset ++ " T:" ++ showComp d.transition ++ " W:" ++ showComp d.reward ++
+  " V:" ++ showComp d.observation ++ " E:" ++ showComp d.terminating
 
 end GV.Codec
